@@ -51,9 +51,10 @@ ASSUMPTIONS = [
     "WF table: no stored number is -999 or above 1e30 (those ARE the missing-value encodings); other fields have names that "
     "the reader does not reserve; any entry of any field AND of any coordinate column may be missing",
     "cross-format agreement (nc.text) for a missing COORDINATE entry is stated on the part of the dataset at non-missing "
-    "times / lead times / location ids (the rest is in no verification) plus the scores; where the text reader deviates "
-    "(missing lat / lon / altitude token read as 0, missing id token replaced by a new id, missing date token: crash) the "
-    "check prints KNOWN-FINDING (known_findings.txt)",
+    "times / lead times / location ids (the rest is in no verification) plus the scores, with the location metadata compared "
+    "in full (a missing lat / lon / altitude entry is NaN in both formats); the text reader's former deviations (missing lat / "
+    "lon / altitude token read as 0, missing id token replaced by a new id, missing date token: crash) are repaired "
+    "(`fixed:` lines of known_findings.txt), their witnesses are regression inputs in corpus/C10.txt",
     "text2nc: float32-representable data, integer location ids, units in display form ($..$ or %); obs and fcst columns "
     "each present or absent (a file needs one of obs / fcst / p.. / q..): the converted file has exactly the fields of "
     "the text file",
